@@ -340,6 +340,52 @@ let run_compress toks =
        | o -> print_outcome hex_of_bytes o)
   | _ -> failwith "compress"
 
+(* ---- readers ---- *)
+let ranges_of (s : string) : range list =
+  if s = "-" then []
+  else List.map (fun r -> match String.split_on_char '+' r with [ o; z ] -> { r_off = n_of_string o; r_size = n_of_string z } | _ -> failwith "range") (split_on ',' s)
+
+let script_of (s : string) : sitem list =
+  if s = "-" then []
+  else
+    List.map
+      (fun t ->
+        let pre p = String.length t >= String.length p && String.sub t 0 (String.length p) = p in
+        let arg p = n_of_string (String.sub t (String.length p) (String.length t - String.length p)) in
+        if t = "ok" then SOk else if t = "refuse" then SRefuse else if t = "wrong" then SWrong
+        else if pre "cut" then SCut (arg "cut") else if pre "short" then SShort (arg "short")
+        else if pre "extra" then SExtra (arg "extra") else failwith "script")
+      (split_on ',' s)
+
+let e_end = n_of_int 21
+let pr_item = function
+  | IOk d -> "ok:" ^ hex_of_bytes d
+  | IErr e -> if e = e_end then "err:END" else if e = n_of_int 22 then "err:EOF" else "err:HTTP"
+let pr_items l = if l = [] then "-" else String.concat "," (List.map pr_item l)
+let pr_log l = if l = [] then "-" else String.concat "," (List.map (fun (o, z) -> string_of_n o ^ "+" ^ string_of_n z) l)
+
+let run_http toks =
+  match toks with
+  | [ f; ranges; retries; script ] ->
+      let (items, log) = read_chunks_http (bytes_of_hex f) (n_of_string retries) (script_of script) (ranges_of ranges) in
+      pr_items items ^ " | " ^ pr_log log
+  | _ -> failwith "http"
+
+let run_httpat toks =
+  match toks with
+  | [ f; off; size; retries; script ] ->
+      let r = n_of_string retries in
+      let (it, log) = http_read_at (nat_of_int (int_of_n r + 2)) (bytes_of_hex f) (n_of_string off) (n_of_string size) r (script_of script) [] in
+      pr_items [ it ] ^ " | " ^ pr_log log
+  | _ -> failwith "httpat"
+
+let run_ioread toks =
+  match toks with
+  | [ f; ranges; sched ] ->
+      let sc = if sched = "-" then [] else List.map (fun t -> if t = "p" then RPending else RRead (n_of_string (String.sub t 1 (String.length t - 1)))) (split_on ',' sched) in
+      pr_items (io_read_chunks (bytes_of_hex f) (ranges_of ranges) sc)
+  | _ -> failwith "ioread"
+
 let dispatch (line : string) : string =
   match split_on ' ' line with
   | "hash" :: r -> run_hash r
@@ -352,6 +398,9 @@ let dispatch (line : string) : string =
   | "protodec" :: r -> run_protodec r
   | "tryinit" :: r -> run_tryinit r
   | "compress" :: r -> run_compress r
+  | "http" :: r -> run_http r
+  | "httpat" :: r -> run_httpat r
+  | "ioread" :: r -> run_ioread r
   | k :: _ -> failwith ("unknown suite " ^ k)
   | [] -> ""
 
